@@ -150,12 +150,17 @@ func c05Run(c *c05Case, dbs [][]database.Command, dir string) {
 		c.DBs = append(c.DBs, dumpDB(d))
 	}
 	mdb := database.NewMonitoredDatabase(database.VerifFresh(loaded[0].Commands))
+	// a second, unrelated cached database in the same process: what it caches is none of mdb's business
+	other := database.NewCachedDatabase(database.VerifFresh(loaded[1].Commands))
 	for i := range c.Steps {
 		s := &c.Steps[i]
 		switch s.Op {
 		case "search", "monsearch":
 			q := fromInts(s.Query)
 			o := s.Opts.toGo()
+			if i%3 == 0 {
+				other.SearchWithOptionsAndCache(q, o)
+			}
 			var got []database.SearchResult
 			if s.Op == "search" {
 				got = mdb.SearchWithOptionsAndCache(q, o)
